@@ -79,7 +79,15 @@ def run_node_case(case, ctx):
         node = nm.create_from_cap(cap.to_string())
         fn = getattr(node, "_node", node)       # the mutable file node behind a directory
         inner = cap._filenode_uri if kind.startswith("DIR2") else cap
-        files.append((kind, fn, inner.writekey, inner.get_storage_index() if hasattr(inner, "get_storage_index") else inner.storage_index))
+        # storage index as the specification derives it (writekey -> readkey -> SI), not as the cap object reports it
+        si_ref = RH.ssk_storage_index(RH.ssk_readkey(inner.writekey))
+        si_cap = inner.get_storage_index() if hasattr(inner, "get_storage_index") else inner.storage_index
+        ctx.check(si_cap == si_ref, "node-secret-differs", "%s cap: storage index %s, the specified chain writekey->readkey->SI gives %s" % (kind, si_cap.hex(), si_ref.hex()), what="si")
+        ctx.check(fn.get_storage_index() == si_ref, "node-secret-differs", "%s node: storage index %s, the specified chain gives %s" % (kind, fn.get_storage_index().hex(), si_ref.hex()), what="si")
+        ro_ = inner.get_readonly()
+        ctx.check(ro_.get_storage_index() == si_ref and ro_.get_verify_cap().get_storage_index() == si_ref and inner.get_verify_cap().get_storage_index() == si_ref, "node-secret-differs",
+                  "%s: read cap / verify cap storage indexes differ from the specified one" % kind, what="si")
+        files.append((kind, fn, inner.writekey, si_ref))
     servers = [_Srv(val(salt, b"server", j, 20)) for j in range(3)]
     classes = set()
     asked = set()
@@ -211,6 +219,12 @@ def run_case(case, ctx):
         si = RH.ssk_storage_index(rk)
         u = uri.WriteableSSKFileURI(wk, k32(1))
         ctx.check(u.readkey == rk and u.storage_index == si, "chain-mismatch", "SSK cap: readkey/SI differ from reference")
+        for cls_w, cls_r in ((uri.WriteableSSKFileURI, uri.ReadonlySSKFileURI), (uri.WriteableMDMFFileURI, uri.ReadonlyMDMFFileURI)):
+            w_ = cls_w(wk, k32(1))
+            r_ = cls_r(rk, k32(1))
+            for what_, c_ in (("write cap", w_), ("read cap", r_), ("read cap derived from the write cap", w_.get_readonly()), ("verify cap", w_.get_verify_cap()), ("verify cap of the read cap", r_.get_verify_cap())):
+                ctx.check(c_.get_storage_index() == si, "chain-mismatch", "%s %s: storage index differs from H(readkey)" % (cls_w.__name__, what_))
+            ctx.check(w_.readkey == rk and w_.get_readonly().readkey == rk, "chain-mismatch", "%s: readkey differs from H(writekey)" % cls_w.__name__)
         ctx.check(uri.CHKFileURI(wk, k32(1), 3, 10, 99).get_storage_index() == RH.chk_storage_index(wk), "chain-mismatch", "CHK SI")
         sh = SecretHolder(k32(2), b"conv")
         for server in range(4):
